@@ -1,6 +1,9 @@
 package dag
 
-import "strings"
+import (
+	"fmt"
+	"strings"
+)
 
 // assertFunctions validates the function definitions.
 func assertFunctions(fns []*funcDef) error {
@@ -10,6 +13,9 @@ func assertFunctions(fns []*funcDef) error {
 
 	nameMap := make(map[string]bool)
 	for _, funcDef := range fns {
+		if funcDef == nil {
+			return fmt.Errorf("%w: functions", errNullEntry)
+		}
 		if _, exists := nameMap[funcDef.Name]; exists {
 			return errDuplicateFunction
 		}
@@ -49,7 +55,7 @@ func assertStepDef(def *stepDef, funcs []*funcDef) error {
 		calledFunc := def.Call.Function
 		calledFuncDef := &funcDef{}
 		for _, funcDef := range funcs {
-			if funcDef.Name == calledFunc {
+			if funcDef != nil && funcDef.Name == calledFunc {
 				calledFuncDef = funcDef
 				break
 			}
